@@ -7,6 +7,7 @@ import GdslModel.Model.Cbor
 import GdslModel.Model.Own
 import GdslModel.Model.Sync
 import GdslModel.Model.Live
+import GdslModel.Model.Builder
 /-!
 Line-protocol driver: reads an annotated program on stdin, prints the model's observation
 stream (one line per request). The harness runs the same program on the real code.
@@ -144,6 +145,31 @@ def doOrder (st : St) (kind dir root method mode : String) : String :=
       | some t => s!"edges={showEdges t.tree}{traceStr obs t.trace}"
     else "bad-op"
   | _, _, _ => "bad-op"
+
+/-- `kind~n`: the configuration calls are made in the n-th order (tables as in the harness: T = transpose,
+    P = min/max, G = target); the builder model turns them into a configuration, from which the effective
+    kind, direction and target of the request are read back -/
+def viaBuilder (directed : Bool) (kindTok dir target : String) : String × String × String :=
+  match kindTok.splitOn "~" with
+  | [kind, v] =>
+    let n := (v.toNat?).getD 0
+    let pfs := kind == "pfs-min" || kind == "pfs-max"
+    let order : List String :=
+      if pfs then
+        (if directed then
+          [["P", "T", "G"], ["T", "P", "G"], ["G", "T", "P"], ["P", "G", "T"], ["T", "G", "P"], ["G", "P", "T"]].getD (n % 6) []
+        else [["P", "G"], ["G", "P"]].getD (n % 2) [])
+      else if directed then [["T", "G"], ["G", "T"]].getD (n % 2) [] else ["G"]
+    let steps : List (BStep Nat) := order.filterMap fun s =>
+      if s == "T" then (if dir == "tr" then some .transpose else none)
+      else if s == "P" then (if kind == "pfs-max" then some .max else some .min)
+      else (target.toNat?).map .target
+    let c := BCfg.build steps
+    let kind' := if pfs then (if c.max then "pfs-max" else "pfs-min") else kind
+    let dir' := if c.tr then "tr" else (if dir == "tr" then "fwd" else dir)
+    let target' := match c.target with | some k => toString k | none => (if target.toNat?.isSome then "-" else target)
+    (kind', dir', target')
+  | _ => (kindTok, dir, target)
 
 /-- builder reuse (`mode1+mode2+...`, a stage may retarget: `path:5`): the model keeps no state between the
     calls of one builder, so every stage is the ordinary request with the target then in force -/
@@ -767,7 +793,8 @@ def step (st : St) (line : String) : St × String :=
   | ["q", u, v] => match u.toNat?, v.toNat? with
     | some u, some v => (st, query st u v)
     | _, _ => (st, "bad-op")
-  | ["search", kind, dir, root, target, method, mode] =>
+  | ["search", kind0, dir0, root, target0, method, mode] =>
+    let (kind, dir, target) := viaBuilder st.directed kind0 dir0 target0
     if method.contains '@' then doLiveSearch st false kind dir root target method mode
     else if mode.contains '+' then doSearchStages st kind dir root target method (mode.splitOn "+")
     else (st, doSearch st kind dir root target method mode)
